@@ -30,6 +30,9 @@ from Pyro5.callcontext import current_context as cctx
 POLL = 2.0
 ADVANCES = [0.5, 2, 4, 8, 15, 30]
 EPS = 1e-6
+HK_BOUND = 2 * POLL + 1.0      # longest allowed gap between two housekeeping passes of a running daemon (virtual seconds):
+#                                multiplex: every loop iteration ends with a pass or a select timeout <= POLLTIMEOUT;
+#                                thread server: Housekeeper.waittime = min(POLLTIMEOUT, max(COMMTIMEOUT, 5)) = POLL; plus slack
 
 
 class _Run:
@@ -68,6 +71,14 @@ class Src:
     def lst(self, slot, n, bad):
         _obs("create", slot, _conn_of(cctx.client))
         return iter([[slot, i] for i in range(n)])
+
+
+@api.expose
+class Ping:
+    """unrelated object the background 'chatter' client keeps calling"""
+
+    def ping(self):
+        return 1
 
 
 @api.expose
@@ -152,14 +163,15 @@ class StreamWorld(World):
               "reconnect_within_linger", "reconnect_after_linger", "terminated_error", "client_local_closed",
               "streaming_disabled", "two_proxies", "concurrent_streams", "multiplex", "thread", "housekeeping_observed",
               "temp_proxy_close", "client_local_stop", "preempted", "raced",
-              "connection_dropped", "continued_after_drop", "concurrent_ops", "client_correlation_id", "disconnect_during_table_change"]
+              "connection_dropped", "continued_after_drop", "concurrent_ops", "client_correlation_id", "disconnect_during_table_change", "chatter"]
     # also counted, but too schedule-dependent to demand: "fetch_before_old_disconnect", "expired_but_still_answers"
     RULE = ("plan = (server type, serializer, ITER_STREAMING on/off, ITER_STREAM_LIFETIME in {0,5,20}, ITER_STREAM_LINGER in "
             "{0,3,10}, 1-2 proxies, 1-4 stream sources (generator/list, 0-8 items, optional ValueError at position k), 6-26 ops "
             "open/next/close/release/reconnect/drop/advance{0.5..30 s} with optional settle after each (drop = the network resets "
             "the proxy's connection while nothing is in flight; 15% of the thread-server plans also set COMMTIMEOUT=3 s so that the "
             "server closes idle connections itself; par = {release|drop of one proxy} concurrently with {open|next|close on a stream "
-            "of the other proxy}; 25% of the plans give client threads a fixed correlation id, possibly shared by both), "
+            "of the other proxy}; 30% of the plans run a background client pinging an unrelated object every POLLTIMEOUT/4 s; "
+            "25% of the plans give client threads a fixed correlation id, possibly shared by both), "
             "block/line pre-emption "
             "probabilities; 22% of the plans end with the focus shape 'expiry race': a fresh stream is closed / fetched at the instant "
             "of the first housekeeping pass after its lifetime or linger ran out, with line pre-emption inside _housekeeping, "
@@ -170,6 +182,12 @@ class StreamWorld(World):
             "resumed after a reconnect")
     ASSUMPTIONS = ["client operations are sequential across proxies (the plan order) except inside a 'par' step, whose two operations touch "
                    "streams of different proxies and are therefore independent in the model; the server's own activity interleaves freely",
+                   "tolerance of expiry: a stream more than 2*POLLTIMEOUT+1 virtual seconds past its lifetime / linger must be gone (no items, "
+                   "not in the table) even if no housekeeping pass was observed - the current servers run a pass at least every "
+                   "POLLTIMEOUT whatever the traffic; a gap above the bound is only counted (probe housekeeping_gap_over_bound), "
+                   "the violation is the stream that outlives its limits",
+                   "the background 'chatter' client (30% of the plans: one ping every POLLTIMEOUT/4 s on its own connection) is not part "
+                   "of the model",
                    "when the server's disconnect step fails before reaching the clientDisconnect hook the connection has ended all the "
                    "same: linger counts from the end of that step",
                    "a stream whose lifetime/linger has elapsed may still answer until the next observed housekeeping pass and must "
@@ -315,6 +333,7 @@ class StreamWorld(World):
             tail.append({"op": "advance", "dt": linger + 2.5})
             tail += [{"op": "reconnect", "p": pa}, {"op": "next", "s": a1}, {"op": "next", "s": a2}]
             ops = ops + tail
+        chatter = rng.random() < 0.3
         corr = [None] * nprox
         if rng.random() < 0.25:
             # the client thread of a proxy sets a fixed correlation id (documented client API): it travels with every call
@@ -355,7 +374,7 @@ class StreamWorld(World):
             ops = ops + tail
         return {"servertype": servertype, "serializer": rng.choice(SERIALIZERS), "streaming": streaming,
                 "lifetime": lifetime, "linger": linger, "nproxies": nprox, "streams": streams, "ops": ops,
-                "commtimeout": commtimeout, "corr": corr, "lines": lines, "p_line": p_line, "p_block": p_block,
+                "commtimeout": commtimeout, "corr": corr, "chatter": chatter, "lines": lines, "p_line": p_line, "p_block": p_block,
                 "net": {"shuffle_select": rng.random() < 0.5}}
 
     def line_codes(self, plan):
@@ -412,6 +431,28 @@ class StreamWorld(World):
                      polltimeout=POLL)
         daemon = srv.daemon
         uri = srv.register(Src(), "src")
+        t_start = sched.now
+        chat = {"stop": False, "calls": 0, "errors": 0}
+        if plan.get("chatter"):
+            ping_uri = srv.register(Ping(), "ping")
+
+            def chatter():
+                # unrelated background traffic: a request every POLL/4 s for the whole run (not part of the model)
+                px = CL.Proxy(ping_uri)
+                while not chat["stop"]:
+                    try:
+                        px.ping()
+                        chat["calls"] += 1
+                    except Exception:  # noqa
+                        chat["errors"] += 1
+                    sched.sleep(POLL / 4)
+                try:
+                    px._pyroRelease()
+                except Exception:  # noqa
+                    pass
+
+            threading.Thread(target=chatter, name="chatter").start()
+            ctx.probe("chatter")
         boxes = [{"op": None, "done": True} for _ in range(nprox)]
         corr_used = [False]
         proxies = [None] * nprox
@@ -636,6 +677,8 @@ class StreamWorld(World):
             sched.sleep(max(life, linger) + 3 * POLL + 1.0)
             sched.settle(5.0)
             _obs("snap", tuple(sorted(daemon.streaming_responses)), "final")
+        chat["stop"] = True
+        ctx.info["chatter"] = [chat["calls"], chat["errors"]]
         for p in range(nprox):
             if boxes[p]["done"]:
                 boxes[p]["op"] = {"op": "quit"}
@@ -674,10 +717,10 @@ class StreamWorld(World):
             ctx.probe("concurrent_ops")
         if corr_used[0]:
             ctx.probe("client_correlation_id")
-        self._judge(ctx, plan, oplog, run["obs"])
+        self._judge(ctx, plan, oplog, run["obs"], t_start)
 
     # ------------------------------------------------------------------ reference model + oracle
-    def _judge(self, ctx, plan, oplog, obs):
+    def _judge(self, ctx, plan, oplog, obs, t_start):
         life, linger = float(plan["lifetime"]), float(plan["linger"])
         streaming = bool(plan["streaming"])
         streams = plan["streams"]
@@ -891,6 +934,9 @@ class StreamWorld(World):
                 return bad(sl, "stopiteration-for-forgotten-stream", sl["reason"] or "", "StopIteration from a stream the server forgot (%s): the "
                            "client cannot tell it from a normal end" % sl["reason"])
             if out[0] == "genexc":
+                if sl["S"] == {GONE} and out == normal:
+                    return bad(sl, "answer-after-forgotten", sl["reason"] or "", "next() re-raised the generator's exception %r although the "
+                               "server must have forgotten the stream (%s): it still ran the generator" % (out[1], sl["reason"]))
                 if normal[0] == "genexc":
                     return bad(sl, "generator-exception-lost", "wrong", "next() raised ValueError(%r), the generator raised %r" % (out[1], normal[1]))
                 return bad(sl, "unexpected-outcome", "genexc", "next() raised ValueError(%r), model expects %r (state %s)" % (out[1], normal, st))
@@ -917,6 +963,38 @@ class StreamWorld(World):
                                         sorted(sl["S"] or [])))
             # else: every item was delivered and the source would stop next: observably exact
 
+        # ---- bounded liveness of housekeeping, independent of traffic: from daemon start to the end of the scenario (the final look
+        # at the table) two consecutive completed passes are never more than HK_BOUND apart (no request takes virtual time here)
+        t_end = next((o[2] for o in obs if o[1] == "snap" and o[4] == "final"), None)
+        if t_end is not None:
+            marks = [t_start] + [o[2] for o in obs if o[1] == "hk" and o[2] <= t_end] + [t_end]
+            gap, at = max((b - a, a) for a, b in zip(marks, marks[1:]))
+            if gap > HK_BOUND + EPS:
+                # not a violation by itself: the statement is about WHEN STREAMS are forgotten, not about how often a pass runs (a server
+                # that expired streams lazily on access would keep the property with rarer passes). The ageing rule below turns a
+                # starved housekeeper into property-level violations (item-after-forgotten, stream-leaked); this is the reach probe.
+                ctx.probe("housekeeping_gap_over_bound")
+
+        def age(now):
+            """a stream that is past its lifetime / linger by more than HK_BOUND must be gone whether or not a pass was seen"""
+            for sl in slots:
+                if not sl["S"] or sl["S"] == {GONE}:
+                    continue
+                ns = set()
+                for a in sl["S"]:
+                    why = None
+                    if a != GONE and life > 0 and now - sl["created"] > life + HK_BOUND:
+                        why = "lifetime expired"
+                    elif a[0] == "linger" and linger > 0 and now - a[1] > linger + HK_BOUND:
+                        why = "linger expired"
+                    if why:
+                        ns.add(GONE)
+                        if sl["reason"] is None:
+                            sl["reason"] = why
+                    else:
+                        ns.add(a)
+                sl["S"] = ns
+
         open_ops = {}       # proxy -> its call in flight (two at most, of different proxies, inside a 'par' op)
         disc_applied = set()
         dead = set()        # connections killed by the network (drop) or closed by the server (observed disconnect)
@@ -927,6 +1005,7 @@ class StreamWorld(World):
                 continue
             if what == "obs":
                 kind, now = o[1], o[2]
+                age(now)
                 if kind == "create":
                     sl = slots[o[3]]
                     sl["created"] = now
